@@ -28,6 +28,10 @@ Vocabulary (`Goat/Proofs/MutexMain.lean`, namespace `Goat.Mutex`):
   `AllDone s`         : every holder has finished
   `MapsCompatible a b`: every name common to `a` and `b` is requested for reading on both sides
   `step v s i`        : `some s'` if holder `i` can move in `s`, `none` if it is blocked or finished
+
+Sections 1–5 are about holders that acquire, hold and release.  Sections 6–8 are about the holders the
+property names first — pipeline tasks, which wait for the tasks of their wait list BEFORE they take
+their lock map (`Goat/Model/MutexTasks.lean`, tied to `Runner.runGo` by `Goat/Tie/C15.lean`).
 -/
 import Goat.Proofs.MutexMain
 import Goat.Proofs.MutexTasksMain
@@ -292,6 +296,18 @@ example : InsideAt ((MutexTasks.tsys .pref
       [⟨[], [(0, false)], false⟩, ⟨[], [], false⟩, ⟨[1], [(0, false)], false⟩]).run
       [0, 0, 0, 1, 1, 1, 1, 2, 2, 2, 2]).lock 2 := by
   constructor <;> exact ⟨_, rfl, rfl⟩
+
+-- a prerequisite whose body fails: the dependant gives up in `waitForTasks` and never takes its lock map
+example : ((MutexTasks.tsys .pref [⟨[], [(0, true)], true⟩, ⟨[0], [(0, true)], false⟩]).run
+      [0, 0, 0, 0, 0, 0, 0, 1]).stage[1]? = some .aborted ∧
+    MutexTasks.AllFinished [⟨[], [(0, true)], true⟩, ⟨[0], [(0, true)], false⟩]
+      ((MutexTasks.tsys .pref [⟨[], [(0, true)], true⟩, ⟨[0], [(0, true)], false⟩]).run
+        [0, 0, 0, 0, 0, 0, 0, 1]) := by
+  refine ⟨rfl, ?_⟩
+  intro j hj
+  match j, hj with
+  | 0, _ => rfl
+  | 1, _ => rfl
 
 /-! ### 7. The order is what the theorem uses -/
 
